@@ -312,6 +312,13 @@ func (e *Engine) callFunction(st *State, fr *Frame, x *ssa.Call, callee *ssa.Fun
 	if spec != nil && spec.Inline {
 		inline = true
 	}
+	if root := st.frames[0]; spec != nil && root.spec != nil {
+		for _, ic := range root.spec.InlineCalls {
+			if ic == callee.Name() || ic == funcKey(callee) {
+				inline = true
+			}
+		}
+	}
 	if spec != nil && !inline {
 		res := e.applyContract(st, fr, x, callee, spec, args)
 		setRes(res)
